@@ -215,10 +215,14 @@ impl Types {
             }
             MemberKind::Int(n) => {
                 let value = permissive::deserialize::<I256, _>(value)?;
-                ensure!(
-                    value.unsigned_abs().leading_zeros() + n >= 256,
-                    "value {value:#x} overflows int{n}",
-                );
+                // NOTE: A two's complement `intN` holds `[-2^(N-1), 2^(N-1))`, so
+                // the value must have at least `256 - N + 1` redundant sign bits.
+                let sign_bits = if value.is_negative() {
+                    value.leading_ones()
+                } else {
+                    value.leading_zeros()
+                };
+                ensure!(sign_bits + n > 256, "value {value:#x} overflows int{n}");
                 value.to_be_bytes()
             }
             MemberKind::Bool => match bool::deserialize(value)? {
